@@ -45,6 +45,9 @@ def mitm_setup(case):
     """rewrite the CONNECT request on the wire (re-signed: a CONNECT carries no secret signature) or the CONNECT/ACK"""
     from nintendo.nex import prudp
     def setup(sim, out):
+        if case.get("check_value") is not None:
+            # the client's random connection check at a boundary of its 32 bits (the response is check + 1 modulo 2^32)
+            sim.prudp_rand.force = {0xFFFFFFFF: case["check_value"]}
         if not (case.get("req_mut") or case.get("resp") or case.get("replay") or case.get("other_user")):
             return
         s = out.settings_s
@@ -189,6 +192,11 @@ def cases(rng, quick):
                 for tv in (0, 1):
                     out.append(dict(name="honest", transport=transport, version=version, pid_size=pid_size, key_size=key_size,
                                     ticket_version=tv, pid=rng.choice([1, 1000, 2 ** 32 - 1] + ([2 ** 64 - 1, 2 ** 40] if pid_size == 8 else [])), expect=OK))
+    # A'. honest requests whose connection check sits at the boundaries of its 32 bits
+    for cv in (0, 1, 0x7FFFFFFF, 0x80000000, 0xFFFFFFFE, 0xFFFFFFFF):
+        for transport, version in (("udp", 1), ("udp", 0), ("lite", 1)):
+            out.append(dict(name="honest-check-value", transport=transport, version=version, check_value=cv, pid_size=rng.choice([4, 8]),
+                            ticket_version=rng.choice([0, 1]), expect=OK))
     # B. ticket age x time zone
     for tz in ("UTC0", "JST-9", "EST5"):
         for age in (-5, 0, 60, 119, 120, 121, 3600, 86400):
@@ -242,7 +250,7 @@ def cases(rng, quick):
 def run(ctx):
     quick = ctx.tier == "quick"
     cs = cases(ctx.rng, quick)
-    ctx.rule = ("one real keyed session per case: honest matrix (3 encodings x pid 4/8 x key 16/32 x ticket version 0/1), ticket age "
+    ctx.rule = ("one real keyed session per case: honest matrix (3 encodings x pid 4/8 x key 16/32 x ticket version 0/1), honest requests with the connection check at the boundaries of its 32 bits, ticket age "
                 "{-5,0,60,119,120,121,3600,86400} s x TZ {UTC, +9, -5}, wrong ticket/server/session keys, mismatched user id, "
                 "every (quick: sampled) truncation and single-byte mutation of ticket and request, truncated payloads, replayed CONNECT, a later CONNECT from the same address carrying another user's valid ticket, "
                 "11 crafted responses, the same ticket shown to differently keyed servers of one process in every order, and a sample of the cases re-run in a child "
